@@ -490,7 +490,7 @@ func hashKeyDescr(fn *ssa.Function, v ssa.Value, at *ssa.BasicBlock) (shape stri
 		v = an.Unwrap(cv.X)
 	}
 	if call, ok := v.(*ssa.Call); ok {
-		if g := an.StaticCallee(&call.Call); g != nil && len(g.Blocks) > 0 && g.Pkg != nil && strings.HasPrefix(g.Pkg.Pkg.Path(), an.ModulePrefix) {
+		if g := an.StaticCallee(&call.Call); an.InModuleFn(g) {
 			for _, rb := range an.ReturnBlocks(g) {
 				rv := an.ReturnValues(an.LastInstr(rb).(*ssa.Return))
 				if len(rv) == 0 {
